@@ -518,7 +518,14 @@ func run(c *mc.Ctx, u mc.Unit) {
 
 	dir := scratchDir()
 	dbPath := filepath.Join(dir, "lastgersync.sqlite")
-	defer os.RemoveAll(dir)
+	bubbleEnded := false
+	defer func() {
+		if bubbleEnded { // every goroutine of the execution has ended and every handle of the harness is closed
+			kit.RemoveScratch(dir)
+		} else {
+			os.RemoveAll(dir)
+		}
+	}()
 	if err := os.WriteFile(dbPath, templateDB(), 0o644); err != nil { // a migrated, empty store (saves re-running the migrations)
 		panic(err)
 	}
@@ -565,6 +572,7 @@ func run(c *mc.Ctx, u mc.Unit) {
 			}
 		}()
 		synctest.Run(w.bubble)
+		bubbleEnded = true
 	}()
 	if w.panicked != nil {
 		panic(w.panicked) // e.g. the engine's divergence panic raised by Choose inside the bubble
